@@ -38,7 +38,15 @@ def rules(model: Model, tier: str) -> List[RuleResult]:
     _validation(model, V)
     hermitian_idiom(model, H, {LINOP}, {})
     _paramnames(model, P)
-    return [F, C, V, H, P]
+    from ..rules import linopalg
+    A = RuleResult(PROP, "C11-A", "composed operators: _rmv is the formal adjoint of _mv (operator-algebra normal form)", min_instances=4)
+    SH = RuleResult(PROP, "C11-SH", "composed operators declare the shape of their products for every batch pattern (shape domain)", min_instances=4)
+    ST = RuleResult(PROP, "C11-ST", "operators are stateless after construction (no cached derived state)", min_instances=40)
+    linopalg.adjoint_structure(model, A)
+    ncfg = linopalg.constructor_shapes(model, SH, tier)
+    linopalg.stateless(model, ST)
+    rules.extra_coverage = dict(shape_configurations=ncfg)
+    return [F, C, V, H, P, A, SH, ST]
 
 
 # ------------------------------------------------------------------------------------------------- F
